@@ -1325,6 +1325,11 @@ def placed_in_species(prog: Program) -> RuleResult:
         sides = {ast.unparse(first.test.left), ast.unparse(first.test.comparators[0])}
         if sp in sides and any(f"{m}[{gene}]" in sides for m in maps) and any(isinstance(x, ast.Continue) for x in first.body):
             ok_filter = True
+    # the same filter written the other way round: the whole body of the gene loop under `if mapping[g] == species`
+    if isinstance(first, ast.If) and len(gene_loop.body) == 1 and not first.orelse and isinstance(first.test, ast.Compare) and len(first.test.ops) == 1 and isinstance(first.test.ops[0], ast.Eq):
+        sides = {ast.unparse(first.test.left), ast.unparse(first.test.comparators[0])}
+        if sp in sides and any(f"{m}[{gene}]" in sides for m in maps):
+            ok_filter = True
     if ok_filter:
         res.ok(construct, f"`{short(first.test)}` -> continue, first statement of the gene loop")
     else:
@@ -1606,15 +1611,29 @@ def label_omit(prog: Program) -> RuleResult:
         return text
 
     found = 0
+    # `if c: label = a  else: label = b` is read as `label = a if c else b`
+    folded: Dict[int, ast.Assign] = {}
+    skip: Set[int] = set()
+    for st in walk_no_nested(fn):
+        if isinstance(st, ast.If) and len(st.body) == 1 and len(st.orelse) == 1:
+            a_, b_ = st.body[0], st.orelse[0]
+            if isinstance(a_, ast.Assign) and isinstance(b_, ast.Assign) and dotted(a_.targets[0]) in label_vars and dotted(a_.targets[0]) == dotted(b_.targets[0]):
+                merged = ast.copy_location(ast.Assign(targets=a_.targets, value=ast.copy_location(ast.IfExp(test=st.test, body=a_.value, orelse=b_.value), st)), a_)
+                folded[id(a_)] = merged
+                skip.add(id(b_))
     for node in walk_no_nested(fn):
+        if id(node) in skip:
+            continue
         if isinstance(node, ast.Assign) and dotted(node.targets[0]) in label_vars:
-            gs = guards(fn, node)
+            gs = [g for g in guards(fn, node) if id(node) not in folded or g[0] is not mod.parent(node).test]
+            orig = node
+            node = folded.get(id(node), node)
             in_leaf = any(pol and isinstance(g, ast.Call) and isinstance(g.func, ast.Attribute) and g.func.attr == "is_leaf" for g, pol in gs)
             if in_leaf:
                 continue
             found += 1
             construct = f"{LAYOUT}:_compute_branches/ancestral-label"
-            value = inline(fn, node.value, node, stop=lambda n: n in syn_text or n in syn_map)
+            value = inline(fn, node.value, orig, stop=lambda n: n in syn_text or n in syn_map)
             ok = False
             why = f"`{short(node.value)}`"
             if isinstance(value, ast.IfExp):
